@@ -31,10 +31,24 @@ class Dom:
         raise NotImplementedError
 
 
+def _wrap_int(cls, n):
+    return n if cls is int else (bool(n) if cls is bool else int.__new__(cls, n))
+
+
 class IntDom(Dom):
     def __init__(self, cls, lo=None, hi=None, label=None):
         self.cls, self.lo, self.hi = cls, lo, hi
         self.label = label or cls.__name__
+
+    def samples(self):
+        lo = self.lo if self.lo is not None else -(2 ** 70)
+        hi = self.hi if self.hi is not None else 2 ** 70
+        c = {lo, lo + 1, lo + 2, hi - 1, hi - 2, hi - 3, 0, 1, -1, 2, -2, 3, -3, 7, -7, 10, -10}
+        for k in (7, 8, 15, 16, 31, 32, 52, 53, 54, 62, 63, 64):
+            for d in (-1, 0, 1):
+                c |= {2 ** k + d, -(2 ** k) + d}
+        c |= {(hi - 1) // 2, (hi - 1) // 3, lo // 2, 3074457345618258602, 1234567890123456789, -987654321987654321}
+        return [_wrap_int(self.cls, n) for n in sorted(c) if lo <= n < hi]
 
     def make(self, run, name):
         t = z3.Int(name)
@@ -50,6 +64,9 @@ class BoolDom(Dom):
         self.cls = cls
         self.label = cls.__name__
 
+    def samples(self):
+        return [_wrap_int(self.cls, 0), _wrap_int(self.cls, 1)]
+
     def make(self, run, name):
         t = z3.Int(name)
         run.assume(z3.Or(t == 0, t == 1))
@@ -61,6 +78,13 @@ class FloatDom(Dom):
         self.cls = cls
         self.nan = nan
         self.label = cls.__name__
+
+    def samples(self):
+        xs = [0.0, -0.0, 1.0, -1.0, 1.5, -2.5, 0.1, 3.0, float("inf"), float("-inf"), 1e308, -1e308, 5e-324,
+              2.0 ** 53, 2.0 ** 63, -(2.0 ** 63), 2.0 ** 64, 1e-9, 1.0000000005]
+        if self.nan:
+            xs.append(float("nan"))
+        return [x if self.cls is float else float.__new__(self.cls, x) for x in xs]
 
     def make(self, run, name):
         t = z3.FP(name, FP)
@@ -74,6 +98,10 @@ class StrDom(Dom):
         self.cls = cls
         self.label = cls.__name__
 
+    def samples(self):
+        xs = ["", "a", "b", "ab", "A", "\u00e9", "\U0001f431", "a\nb", "0", "true"]
+        return [x if self.cls is str else str.__new__(self.cls, x) for x in xs]
+
     def make(self, run, name):
         return VStr(self.cls, z3.String(name))
 
@@ -83,12 +111,19 @@ class BytesDom(Dom):
         self.cls = cls
         self.label = cls.__name__
 
+    def samples(self):
+        xs = [b"", b"a", b"ab", b"\x00", b"\xff\xfe", b"b"]
+        return [x if self.cls is bytes else bytes.__new__(self.cls, x) for x in xs]
+
     def make(self, run, name):
         return VBytes(self.cls, z3.Const(name, se.BYTES))
 
 
 class NoneDom(Dom):
     label = "None"
+
+    def samples(self):
+        return [None]
 
     def make(self, run, name):
         return NONE
@@ -99,6 +134,9 @@ class ConstDom(Dom):
         self.obj = obj
         self.label = label or repr(obj)
 
+    def samples(self):
+        return [self.obj]
+
     def make(self, run, name):
         return se.lift(self.obj)
 
@@ -106,10 +144,18 @@ class ConstDom(Dom):
 class ObjDom(Dom):
     """An opaque heap object of a given class (e.g. a CELEvalError value) with given attrs."""
 
-    def __init__(self, cls, attrs=None, label=None):
+    def __init__(self, cls, attrs=None, label=None, native=None):
         self.cls = cls
         self.attrs = attrs or {}
         self.label = label or cls.__name__
+        self.native = native
+
+    def samples(self):
+        if self.native is not None:
+            return [self.native()]
+        if issubclass(self.cls, BaseException):
+            return [self.cls("sample error")]
+        raise NotImplementedError
 
     def make(self, run, name):
         return VObj(self.cls, {k: (v.make(run, f"{name}.{k}") if isinstance(v, Dom) else v)
@@ -117,9 +163,15 @@ class ObjDom(Dom):
 
 
 class FnDom(Dom):
-    def __init__(self, fn, label):
+    def __init__(self, fn, label, native=None):
         self.fn = fn
         self.label = label
+        self.native = native
+
+    def samples(self):
+        if self.native is None:
+            raise NotImplementedError
+        return list(self.native())
 
     def make(self, run, name):
         return self.fn(run, name)
@@ -485,10 +537,14 @@ def check_contract(con: Contract, rep: Report, engine=None, crosscheck=True, kno
         except se.Unsupported as u:
             o = rep.add(Obl(f"{con.name}[{label}]", "U", con.name, f"exploration failed: {u}"))
             o.detail = str(u)
+            bounded_standin(con, raw, combo, rep, label)
             continue
         except Exception as ex:
             rep.errors.append(f"{con.name}[{label}]: executor crash: {ex!r}\n{traceback.format_exc()}")
             continue
+        if any(p.kind == "unsupported" for p in paths) or os.environ.get("VERIF_TIER_EFFECTIVE") == "thorough":
+            bounded_standin(con, raw, combo, rep, label,
+                            limit=20000 if os.environ.get("VERIF_TIER_EFFECTIVE") == "thorough" else 4000)
         for pi, p in enumerate(paths):
             s = p.run.sargs if hasattr(p.run, "sargs") else None
             rep.assumptions |= p.run.assumptions
@@ -558,6 +614,90 @@ def check_contract(con: Contract, rep: Report, engine=None, crosscheck=True, kno
                 o.detail = "declared exit never reached: contract clause vacuous"
     if len(rep.obls) == n_obl_before:
         rep.errors.append(f"{con.name}: zero obligations generated")
+
+
+def holds_concretely(goal):
+    if isinstance(goal, bool):
+        return goal
+    g = z3.simplify(goal)
+    if z3.is_true(g):
+        return True
+    if z3.is_false(g):
+        return False
+    sol = z3.Solver()
+    sol.set("timeout", 5000)
+    sol.add(z3.Not(g))
+    r = sol.check()
+    if r == z3.unsat:
+        return True
+    if r == z3.sat:
+        return False
+    raise se.Unsupported("clause not decidable on concrete values")
+
+
+def clause_on_native(con, nargs, kind, val):
+    cs = S({n: se.lift(v) for n, v in nargs.items()})
+    if kind == "return":
+        if con.ret is None:
+            return False
+        return holds_concretely(con.ret(cs, se.lift(val)))
+    declared = None
+    for K in type(val).__mro__:
+        if K in con.exc:
+            declared = K
+            break
+    return False if declared is None else holds_concretely(con.exc[declared](cs))
+
+
+def bounded_standin(con, raw, combo, rep, label, limit=4000, seed=0):
+    """Run-time check of the same contract clauses on a boundary-value grid of native inputs (labelled bounded;
+    never counted as proved).  A failing case is a real failing input, hence a confirmed violation."""
+    import itertools
+    import random
+    try:
+        pools = [d.samples() for _, d in combo]
+    except NotImplementedError:
+        return None
+    total = 1
+    for p_ in pools:
+        total *= max(len(p_), 1)
+    rng = random.Random(seed)
+    if total <= limit:
+        cases = itertools.product(*pools)
+    else:
+        cases = (tuple(rng.choice(p_) for p_ in pools) for _ in range(limit))
+    n = 0
+    distinct = set()
+    failures = []
+    for case in cases:
+        nargs = {nm: v for (nm, _), v in zip(combo, case)}
+        if con.requires is not None:
+            try:
+                if not holds_concretely(con.requires(S({k: se.lift(v) for k, v in nargs.items()}))):
+                    continue
+            except Exception:
+                continue
+        kind, val = outcome_native(con, raw, combo, nargs)
+        n += 1
+        distinct.add(repr([describe(v) for v in case]))
+        try:
+            ok = clause_on_native(con, nargs, kind, val)
+        except Exception as ex:
+            continue
+        if not ok:
+            failures.append({"inputs": {k: describe(v) for k, v in nargs.items()}, "observed": f"{kind} {describe(val)}"})
+            if len(failures) >= 3:
+                break
+    rep.bounded.append({"function": con.name, "classes": label, "bound": f"boundary-value grid, <= {limit} cases",
+                        "cases": n, "distinct_nontrivial": len(distinct), "failures": len(failures)})
+    if failures:
+        o = rep.add(Obl(f"{con.name}[{label}]#bounded", "B", con.name,
+                        "bounded stand-in: contract clause checked at run time on boundary inputs"))
+        o.status, o.backend = "refuted", "cpython"
+        o.detail = "failing input: " + json.dumps(failures[0])
+        o.replay = {"function": con.target, "contract": con.name, "replayed": True, "confirmed": True,
+                    "inputs": failures[0]["inputs"], "observed": failures[0]["observed"], "more": failures[1:]}
+    return failures
 
 
 def native_call(con, raw, combo, nargs):
